@@ -2,7 +2,8 @@
 // (Meter::RegisterSyncMetricStorage and its storage registry under storage_lock_, a SpinLockMutex = std::atomic<bool>,
 // therefore shimmed), sync_metric_storage.cc, meter_context.cc, meter_provider.cc … with threads that each obtain their own
 // handle for an instrument for the first time and record through it, under an explicit schedule.
-//   mrg <nthreads 1-4> <names e.g. aab: the instrument thread i creates> <adds each> <kind: c|u|h> ; t<i> ; ...
+//   mrg <nthreads 1-4> <names e.g. aab: the instrument thread i creates> <adds each> <kind: c|u|h>[+] ; t<i> ; ...
+//     `+` after the kind: thread <nthreads> is a collector (two Collect calls of the cumulative reader) racing the others
 //     thread i: CreateUInt64Counter / CreateInt64UpDownCounter / CreateUInt64Histogram("i_<names[i]>"), then `adds` times Add /
 //     Record(1 + i).  After the schedule everything is drained and one cumulative reader collects.
 // Output: per action the trace of the step; then `done=1 rec=<name>:<total recorded>,… got=<name>:<total collected>,…`.
@@ -48,7 +49,10 @@ static std::string handle(const std::vector<std::string> &t)
   unsigned long nth, adds;
   if (!num(ops[0][0], nth) || !num(ops[0][2], adds)) return "bad-op";
   const std::string names = ops[0][1];
-  const std::string kind  = ops[0][3];
+  std::string kind        = ops[0][3];
+  // `<kind>+`: one more thread (the last one) collects twice while the others create and record
+  const bool collector = kind.size() == 2 && kind[1] == '+';
+  if (collector) kind.pop_back();
   if (nth == 0 || nth > 4 || names.size() != nth || adds == 0 || adds > 5 || (kind != "c" && kind != "u" && kind != "h")) return "bad-op";
   for (char c : names)
     if (c < 'a' || c > 'c') return "bad-op";
@@ -58,7 +62,7 @@ static std::string handle(const std::vector<std::string> &t)
     if (ops[i].size() != 1 || ops[i][0].size() < 2 || ops[i][0][0] != 't') return "bad-op";
     unsigned long v;
     if (!num(ops[i][0].substr(1), v)) return "bad-op";
-    acts.push_back(v >= nth ? -1 : (int)v);
+    acts.push_back(v >= nth + (collector ? 1 : 0) ? -1 : (int)v);
   }
   detsched::reset();
   std::vector<std::string> outs;
@@ -91,6 +95,22 @@ static std::string handle(const std::vector<std::string> &t)
         else if (u) u->Add(v);
         else h->Record(static_cast<uint64_t>(v), opentelemetry::context::Context{});
         detsched::note("added");
+      }
+    });
+  }
+  if (collector)
+  {
+    detsched::spawn([&] {
+      for (int j = 0; j < 2; j++)
+      {
+        detsched::point("begin", nullptr);
+        detsched::note("collect");
+        size_t n = 0;
+        reader->Collect([&](sm::ResourceMetrics &rm) {
+          for (auto &sc : rm.scope_metric_data_) n += sc.metric_data_.size();
+          return true;
+        });
+        detsched::note("collected " + std::to_string(n));
       }
     });
   }
